@@ -59,6 +59,7 @@ class RunInfo:
         storage: str | dict[OUTPUT_TYPE, str],
         cleanup: bool = True,
     ) -> RunInfo:
+        storage = _normalize_storage_keys(storage)
         _validate_storage(storage, pipeline)
         run_folder = _maybe_run_folder(run_folder, storage)
         if run_folder is not None:
@@ -78,7 +79,7 @@ class RunInfo:
             shape_masks=masks,
             mapspecs_as_strings=pipeline.mapspecs_as_strings,
             run_folder=run_folder,
-            storage=_normalize_storage_keys(storage),
+            storage=storage,
         )
 
     def storage_class(self, output_name: OUTPUT_TYPE) -> type[StorageBase]:
